@@ -49,6 +49,14 @@ PROPS = {
         assumptions=ASSUME_WB + ["'no write' is observed through mtimes: every file is aged to a fixed past instant before each call"],
         stages=[dict(name="update", run="^TestC04_", quick=600, thorough=5000, shards_quick=4, shards_thorough=16)],
     ),
+    "C05": dict(
+        rule="the full table CI{on,off} x Update option{unset,true,false} x UPDATE_SNAPS{unset,true,clean,other string} x Clean sort{on,off} x 5 entry points x entry state{missing,equal,different} "
+             "x obsolete items{present,absent} = 1440 cells, enumerated completely; per cell the values and the 'other' string come from seeded generators. Each cell = a preparation run and one real process of a "
+             "data-driven test program (real environment variables, real TestMain + snaps.Clean); the observed call outcome and the directory delta are compared with the statement's table written as a pure function. "
+             "non-trivial = cells in which a create, rewrite, delete or sort is requested by the situation; every cell is distinct",
+        assumptions=["black-box: scenario program compiled against /repo with `replace`, executed with an explicit minimal environment", "UPDATE_SNAPS and CI are read by the real init code of the process"],
+        stages=[dict(name="table", engine="bb", run="^TestC05_", quick=1, thorough=1, shards_quick=8, shards_thorough=16)],
+    ),
     "C07": dict(
         rule="case = test program (1-5 tests/subtests, 0-12 calls each over all five APIs and 1-3 configs incl. custom Filename/Ext/second dir), -count 1-3, -run in {empty, Test, ^Test, exact alternation, .}, "
              "pre-existing directory from a recording run plus stale entries at random positions, stale files, unrelated files, sub-directories; some slots are first added in the run itself; "
